@@ -308,6 +308,9 @@ func (fc *FnCtx) evalIdent(env *specEnv, name string) Val {
 	if sf, ok := fc.eng.specFns[name]; ok && len(sf.Args) == 0 {
 		return Val{T: name, Sort: sf.Res, Ty: goTypeOfSort(sf.Res)}
 	}
+	if name == "zeroIntArray" {
+		return Val{T: "((as const (Array Int Int)) 0)", Sort: "(Array Int Int)"}
+	}
 	if name == "alloc" {
 		return Val{T: env.st.alloc, Sort: sortInt, Ty: types.Typ[types.Int]}
 	}
